@@ -161,8 +161,7 @@ class FunTerm:
                     names = [varname(t) for t in targets if varname(t) is not None and not isinstance(t, ast.Subscript)]
                     src = varname(st.value) if isinstance(st.value, (ast.Name, ast.Attribute)) else None
                     group = set(names) | ({src} if src is not None and src in self.env else set())
-                    mutable_value = isinstance(st.value, (ast.Dict, ast.List, ast.Set, ast.ListComp, ast.DictComp, ast.SetComp)) or \
-                        (isinstance(st.value, ast.Call) and txt(st.value.func) in ("dict", "list", "set", "defaultdict", "Counter")) or src is not None
+                    mutable_value = not isinstance(st.value, (ast.Constant, ast.Tuple, ast.JoinedStr, ast.Compare))
                     muts = getattr(self, "_mutated_names", set())
                     if len(group) > 1 and mutable_value and (group & muts):
                         for nm_ in group:
@@ -254,7 +253,41 @@ class FunTerm:
             if meth in astx.MUTATOR_METHODS and nm in self.env:
                 self.env[nm] = OPQ(f"{nm}.{meth}(...)")
                 return
-        # other calls: effects on names passed are unknown but values of locals are unaffected
+        # group-by idiom:  D.setdefault(k, []).append(e)   =   D[k] = D.get(k, []) + [e]
+        if isinstance(v, ast.Call) and isinstance(v.func, ast.Attribute) and v.func.attr == "append" and len(v.args) == 1 and isinstance(v.func.value, ast.Call) \
+                and isinstance(v.func.value.func, ast.Attribute) and v.func.value.func.attr == "setdefault" and len(v.func.value.args) == 2 \
+                and isinstance(v.func.value.args[1], ast.List) and not v.func.value.args[1].elts and varname(v.func.value.func.value) in self.env:
+            D_ = v.func.value.func.value
+            K_ = v.func.value.args[0]
+            tgt_ = ast.Subscript(value=D_, slice=K_, ctx=ast.Store())
+            val_ = ast.BinOp(left=ast.Call(func=ast.Attribute(value=D_, attr="get", ctx=ast.Load()), args=[K_, ast.List(elts=[], ctx=ast.Load())], keywords=[]),
+                             op=ast.Add(), right=ast.List(elts=[v.args[0]], ctx=ast.Load()))
+            ast.copy_location(tgt_, v)
+            ast.copy_location(val_, v)
+            ast.fix_missing_locations(tgt_)
+            ast.fix_missing_locations(val_)
+            self.assign(tgt_, val_)
+            return
+        # any other call: a tracked container that is the (possibly indirect) receiver - `D.setdefault(k, []).append(e)`,
+        # `D[k].append(e)` - or that is passed to a function not known to be pure may be modified by it: given up
+        PURE = {"len", "sorted", "sum", "tuple", "list", "set", "frozenset", "dict", "min", "max", "enumerate", "zip", "range", "print", "isinstance", "str", "int",
+                "float", "abs", "any", "all", "repr", "iter", "next", "map", "filter", "reversed", "round", "bool", "id", "type", "hash"}
+        if isinstance(v, ast.Call):
+            r = v.func
+            while isinstance(r, (ast.Attribute, ast.Call, ast.Subscript)):
+                r = r.func if isinstance(r, ast.Call) else r.value
+                nm_r = varname(r) if isinstance(r, (ast.Name, ast.Attribute)) else None
+                if nm_r is not None and nm_r in self.env and isinstance(v.func, ast.Attribute) and v.func.attr in astx.MUTATOR_METHODS:
+                    self.env[nm_r] = OPQ(f"{nm_r} modified through {txt(v.func)[:40]}")
+                    break
+            fname = txt(v.func)
+            if fname.split(".")[-1] not in PURE:
+                for a_ in list(v.args) + [k.value for k in v.keywords]:
+                    nm_a = varname(a_) if isinstance(a_, (ast.Name, ast.Attribute)) else None
+                    if nm_a is not None and nm_a in self.env:
+                        at_ = tm.single_atom(self.env[nm_a])
+                        if at_ is not None and at_[0] in ("list", "seq", "dictacc", "emptydict", "dict", "concat", "upd", "set"):
+                            self.env[nm_a] = OPQ(f"{nm_a} passed to {fname[:40]}")
 
     def assign(self, t: ast.AST, value: ast.AST) -> None:
         if varname(t) is not None:
@@ -674,7 +707,7 @@ def _written_names(body) -> set:
                     out.add(varname(t.value))
                 elif varname(t):
                     out.add(varname(t))
-            elif isinstance(n, ast.Call) and isinstance(n.func, ast.Attribute) and n.func.attr in ("append", "add", "extend", "update") and varname(n.func.value):
+            elif isinstance(n, ast.Call) and isinstance(n.func, ast.Attribute) and n.func.attr in ("append", "add", "extend", "update", "setdefault") and varname(n.func.value):
                 out.add(varname(n.func.value))
     return out - rebound
 
